@@ -234,9 +234,15 @@ void op_reload(const Step& s) {
 // ----------------------------------------------------------------- generators
 const char NAMECHARS[] = "abcdefghijklmnopqrstuvwxyzABCDEFGHIJKLMNOPQRSTUVWXYZ0123456789_#@!$%&*+./;<=?[]^{|}~'\"`\\";
 
+// names may contain any byte that is neither whitespace nor reserved punctuation: that includes bytes >= 0x80
+// (UTF-8 text, Latin-1), at the ends of a name as well as inside
 std::string rand_name(Rng& r, bool fancy) {
 	size_t n = size_t(r.range(1, fancy ? 6 : 3)); std::string s;
-	for (size_t i = 0; i < n; ++i) s += fancy ? NAMECHARS[r.below(sizeof NAMECHARS - 1)] : "abcdefgpqrs0123"[r.below(15)];
+	static const char* const utf8[] = {"\xc3\xa1", "\xce\xa9", "\xc5\xbe", "\xe2\x82\xac", "\xf0\x9f\x8c\xb3", "\xe9", "\xff", "\x80", "\xa0", "\x85"};
+	for (size_t i = 0; i < n; ++i) {
+		if (fancy && r.chance(1, 6)) s += utf8[r.below(sizeof utf8 / sizeof utf8[0])];
+		else s += fancy ? NAMECHARS[r.below(sizeof NAMECHARS - 1)] : "abcdefgpqrs0123"[r.below(15)];
+	}
 	return s;
 }
 
